@@ -39,6 +39,7 @@ fn main() {
     if args[1].starts_with('C') && args[1].len() == 3 {
         let limit: u64 = std::env::var("VERIF_WATCHDOG_S").ok().and_then(|x| x.parse().ok()).unwrap_or(if tier == "thorough" { 6 * 3600 } else { 1500 });
         let prop = args[1].clone();
+        common::hang::install(&prop, tier);
         std::thread::spawn(move || {
             std::thread::sleep(std::time::Duration::from_secs(limit));
             println!("INCONCLUSIVE property={} reason=watchdog: the run did not finish within {} s (a thread of the node under test or of the harness is blocked)", prop, limit);
